@@ -335,6 +335,14 @@ impl Plan {
             if ctx.quick() {
                 let mut rng = ctx.rng("c06-call2", i);
                 let proc = self.procs[(i % np) as usize].clone();
+                // the first 169 of the 400 pairs per procedure are all ordered pairs of the numeric
+                // boundary values (0, +-1, i32/i64 extremes, 2^63, non-canonical bignum, integer-valued
+                // rational, infinities, NaN); the rest are sampled from the whole palette
+                const BOUNDARY: [usize; 13] = [0, 1, 2, 7, 8, 9, 11, 12, 13, 16, 20, 27, 29];
+                let j = (i / np) as usize;
+                if j < 169 {
+                    return Case::Call { proc, args: vec![BOUNDARY[j / 13], BOUNDARY[j % 13]], shared: false };
+                }
                 return Case::Call { proc, args: vec![rng.usize(self.p), rng.usize(self.p)], shared: rng.chance(1, 8) };
             }
             let proc = self.procs[(i / (p * p)) as usize].clone();
